@@ -47,6 +47,39 @@
 (*   ScriptFootprint every recorded step of a script kept to its footprint *)
 (* Emit / EmitScript print the cases replayed on the real decorators by    *)
 (* harness/check_C16.py (spec -> code; the spec is the oracle).            *)
+(*                                                                         *)
+(* IMPOSE_AS (section "tracking masks" below) is specified for GENERAL     *)
+(* masks, as documented ("the offset is applied to the second member of    *)
+(* the tuple, and can accumulate"), not as the implementation's loop:      *)
+(*   - a pair (i, j) of python indices with an out-of-range member is      *)
+(*     ignored; the others are edges Pos(i) -> Pos(j) of a directed graph; *)
+(*   - after the call EVERY pair holds: y[j] = y[i] + offset (None = 0);   *)
+(*     hence inside a connected component (pair direction ignored) the     *)
+(*     value of an entry is  x[source] + offset * depth(entry), depth =    *)
+(*     number of pairs on a directed path from an entry without incoming   *)
+(*     pair (a "root", depth 0) to the entry;                              *)
+(*   - the SOURCE of a component is its root; when several entries of a    *)
+(*     component have no incoming pair (fan-in: (0,1),(3,1)) it is the     *)
+(*     root whose pair comes first in the mask list - the docstring        *)
+(*     example shows x3 := x0 for exactly this mask, and the code agrees   *)
+(*     whenever the list names each component source first; the other      *)
+(*     roots then take the source's value (they are at depth 0);           *)
+(*   - the source and all entries outside every in-range pair keep their   *)
+(*     value;                                                              *)
+(*   - PREMISE (AsDefined): the relation can hold for all pairs at once,   *)
+(*     i.e. the graph has no directed cycle or self-pair and no entry is   *)
+(*     reached at two different depths (AsGraded), and no position is      *)
+(*     spelled in two ways in one mask (0 and -n: AsNoAlias).  Outside     *)
+(*     the premise nothing is promised (Expect = 0; counted, not judged).  *)
+(*   - IDEMPOTENCE with a non-zero offset: f(f(x)) = f(x) is promised,     *)
+(*     because the source is an entry the first application left alone     *)
+(*     (depth 0) and the second application re-establishes                 *)
+(*     y[j] = y[i] + offset from the same source value; offsets do NOT     *)
+(*     accumulate over repeated application, only along a chain.           *)
+(*     (ThmIdempotent / ThmAll / ReapplyNoop check exactly this.)          *)
+(* The docstring examples of impose_as are ASSUMEd below (AsDocExamples).  *)
+(* SYNCHRONIZED documents "operations within a single mask are unordered": *)
+(* chains inside one synchronized mask stay outside the premise.           *)
 (***************************************************************************)
 EXTENDS Integers, Sequences, FiniteSets, TLC, Json, SequencesExt, FiniteSetsExt, IOUtils
 
@@ -92,7 +125,8 @@ NoAlias(ix, n) == IsNone(ix) \/ \A a, b \in DOMAIN ix :
 
 -----------------------------------------------------------------------------
 (* decorator constructors: the catalogue is a set of these uniform records *)
-D(k, ix, p, iv, g) == [k |-> k, ix |-> ix, p |-> p, iv |-> iv, g |-> g]
+D(k, ix, p, iv, g) == [k |-> k, ix |-> ix, p |-> p, iv |-> iv, g |-> g, a |-> << >>]
+       \* a: only impose_as records fill it (DAs, below): the analysis of their mask for every input length
 All == <<NONE>>
 DBounds(iv, ix, clip, nearest, form) == D("bounds", ix, <<clip, nearest, form>>, iv, 0)
        \* impose_bounds(iv, index=ix, clip, nearest); form 1: bounds given as dict {i: iv}
@@ -104,7 +138,7 @@ DUnique(full)                == D("unique", All, << >>, <<full>>, 0)
 DMonotonic(asc, outer, ix, g) == D("monotonic", ix, <<asc, outer>>, << >>, g)
 DSorting(asc, outer, ix, g)  == D("sorting", ix, <<asc, outer>>, << >>, g)
 DAt(ix, target)              == D("at", ix, <<target>>, << >>, 0)          \* impose_at(ix, target)
-DAs(pairs, offset)           == D("as", All, <<offset>>, pairs, 0)         \* impose_as({(i,j),..}, offset): x[j] tracks x[i]
+(* DAs(pairs, offset): impose_as([(i,j),..], offset), x[j] tracks x[i]; defined with the tracking masks below *)
 DMean(t)                     == D("mean", All, <<t>>, << >>, 0)
 DVariance(t)                 == D("var", All, <<t>>, << >>, 0)
 DSpread(t)                   == D("spread", All, <<t>>, << >>, 0)
@@ -112,6 +146,8 @@ DNormalized(t)               == D("norm", All, <<t>>, << >>, 0)
 DMasked(mask)                == D("masked", All, << >>, mask, 0)           \* mask = <<key, value>> tuples
 DPartial(mask)               == D("partial", All, << >>, mask, 0)
 DSync(mask)                  == D("sync", All, << >>, mask, 0)             \* <<i, j, c>>: c = 0 {i: j}, c # 0 {i: (j, c)}
+DSyncF(mask, form)           == D("sync", All, <<form>>, mask, 0)          \* c # 0 given as a callable: form 1 {i: (j, lambda t: c*t)},
+                                                                           \*                             form 2 {i: (j, lambda t: t + c/S)}
 DClipped(lo, hi, exit, g)    == D("clipped", All, <<lo, hi, exit>>, << >>, g)
 DSuppressed(tol, exit, g)    == D("suppressed", All, <<tol, exit>>, << >>, g)
 
@@ -168,12 +204,114 @@ RankIn(P, i) == Cardinality({m \in P : m <= i})                \* 1-based rank o
 (* the inner function *)
 Inner(g, v) == IF g = 0 THEN v ELSE [i \in DOMAIN v |-> v[i] + (S \div 2)]
 
-(* footprint: positions (of the OUTPUT) a decorator may touch, for an input of length n *)
 InRangePairs(iv, n) == {j \in DOMAIN iv : InRange(iv[j][1], n) /\ InRange(iv[j][2], n)}
+
+-----------------------------------------------------------------------------
+(* tracking masks of impose_as: the directed graph of the in-range pairs (1-based positions) *)
+AsOff(d) == IF d.p[1] = NONE THEN 0 ELSE d.p[1]                       \* offset None counts as 0
+AsEdges(iv, n) == {<<Pos(iv[j][1], n), Pos(iv[j][2], n)>> : j \in InRangePairs(iv, n)}
+AsNodes(E) == {e[1] : e \in E} \cup {e[2] : e \in E}
+AsRoots(E) == AsNodes(E) \ {e[2] : e \in E}                           \* entries without incoming pair
+(* connected component (pair direction ignored) *)
+RECURSIVE AsGrow(_, _)
+AsGrow(A, E) ==
+  LET B == A \cup {e[2] : e \in {e \in E : e[1] \in A}} \cup {e[1] : e \in {e \in E : e[2] \in A}}
+  IN  IF B = A THEN A ELSE AsGrow(B, E)
+AsComp(a, E) == AsGrow({a}, E)
+(* depth: number of pairs on the longest directed path ending at a; a walk of |nodes| pairs     *)
+(* repeats a node, so running out of fuel means a directed cycle (reported as depth >= AsCyc)   *)
+AsCyc == 100
+RECURSIVE AsLP(_, _, _)
+AsLP(a, E, fuel) ==
+  IF fuel = 0 THEN AsCyc
+  ELSE LET P  == {e[1] : e \in {e \in E : e[2] = a}}
+           DP == {AsLP(b, E, fuel - 1) : b \in P}                  \* (the maximum is spelled out: TLC cannot pre-compute
+       IN  IF P = {} THEN 0 ELSE 1 + (CHOOSE c \in DP : \A b \in DP : c >= b) \*  definitions that pass a recursive call to Max)
+AsDepth(a, E) == AsLP(a, E, Cardinality(AsNodes(E)))
+(* y[j] = y[i] + offset can hold for every pair at once: acyclic, every pair goes down exactly one level *)
+AsGraded(E) == \A e \in E : AsDepth(e[2], E) < AsCyc /\ AsDepth(e[2], E) = AsDepth(e[1], E) + 1
+(* no position is written in two ways (0 and -n) among the in-range members of one mask *)
+AsNoAlias(iv, n) ==
+  LET R == UNION {{iv[j][1], iv[j][2]} : j \in InRangePairs(iv, n)}
+  IN  \A a, b \in R : Pos(a, n) = Pos(b, n) => a = b
+AsDefined(iv, n) == AsNoAlias(iv, n) /\ AsGraded(AsEdges(iv, n))
+(* the source of the component of node a: its root; of several roots the one whose pair is listed first *)
+AsSource(a, iv, n) ==
+  LET E  == AsEdges(iv, n)
+      R  == AsRoots(E) \cap AsComp(a, E)
+      JS == {j \in InRangePairs(iv, n) : Pos(iv[j][1], n) \in R}
+      jm == CHOOSE j \in JS : \A m \in JS : j <= m                   \* the first-listed pair that starts at a root
+  IN  Pos(iv[jm][1], n)
+AsSources(iv, n) == {AsSource(a, iv, n) : a \in AsNodes(AsEdges(iv, n))}
+AsT(iv, off, v) ==
+  LET n == Len(v)
+      E == AsEdges(iv, n)
+      N == AsNodes(E)
+  IN  [i \in DOMAIN v |-> IF i \in N THEN v[AsSource(i, iv, n)] + off * AsDepth(i, E) ELSE v[i]]
+(* classes of masks (for case accounting and violation keys; they do not enter any expected value):  *)
+(*   chained    some entry is second member of one pair and first member of another                  *)
+(*   multiroot  some component has several entries without incoming pair (fan-in)                    *)
+(*   listing    0: every component's first-listed pair starts at its source and every later pair     *)
+(*                 shares a member with an earlier-listed pair of its component ("source first");    *)
+(*              1: prefix-connected, but a component's first-listed pair does not start at its source*)
+(*              2: some pair is listed before the pairs that connect it to the rest of its component *)
+AsChained(iv, n) == LET E == AsEdges(iv, n) IN {e[1] : e \in E} \cap {e[2] : e \in E} # {}
+AsMultiRoot(iv, n) == LET E == AsEdges(iv, n) IN \E a, b \in AsRoots(E) : a # b /\ b \in AsComp(a, E)
+AsListing(iv, n) ==
+  LET E == AsEdges(iv, n)
+      I == InRangePairs(iv, n)
+      comp(j) == AsComp(Pos(iv[j][1], n), E)
+      mem(j) == {Pos(iv[j][1], n), Pos(iv[j][2], n)}
+      earlier(j) == {m \in I : m < j /\ Pos(iv[m][1], n) \in comp(j)}
+      prefix == \A j \in I : earlier(j) = {} \/ \E m \in earlier(j) : mem(m) \cap mem(j) # {}
+      srcfirst == \A j \in I : earlier(j) = {} => Pos(iv[j][1], n) = AsSource(Pos(iv[j][1], n), iv, n)
+  IN  IF ~prefix THEN 2 ELSE IF ~srcfirst THEN 1 ELSE 0
+AsClassOf(iv, n) == IF AsDefined(iv, n)
+                    THEN <<IF AsChained(iv, n) THEN 1 ELSE 0, IF AsMultiRoot(iv, n) THEN 1 ELSE 0, AsListing(iv, n)>>
+                    ELSE <<0, 0, 0>>
+
+(* the same by table: the analysis of a mask for an input of length n -- premise, and for every position the    *)
+(* position of its source (0: in no in-range pair) and its depth -- is computed once per decorator (field `a`    *)
+(* of the record, lengths 0..AsPlanLen) instead of once per vector; longer inputs are analysed on the spot        *)
+AsPlanLen == 5
+AsAnalysis(iv, n) ==
+  LET E  == AsEdges(iv, n)
+      N  == AsNodes(E)
+      df == AsDefined(iv, n)
+  IN  [df  |-> df,
+       src |-> [i \in 1..n |-> IF df /\ i \in N THEN AsSource(i, iv, n) ELSE 0] \o << >>,
+       dep |-> [i \in 1..n |-> IF df /\ i \in N THEN AsDepth(i, E) ELSE 0] \o << >>,
+       cls |-> AsClassOf(iv, n)]
+AsPlanAll(iv) == [m \in 1..(AsPlanLen + 1) |-> AsAnalysis(iv, m - 1)] \o << >>
+DAsP(pairs, offset, plan) == [k |-> "as", ix |-> All, p |-> <<offset>>, iv |-> pairs, g |-> 0, a |-> plan]
+DAs(pairs, offset) == DAsP(pairs, offset, AsPlanAll(pairs))          \* offset NONE = None
+AsPlan(d, n) == IF n <= AsPlanLen /\ Len(d.a) > 0 THEN d.a[n + 1] ELSE AsAnalysis(d.iv, n)
+AsTP(d, v) == LET pl == AsPlan(d, Len(v))                                      \* = AsT(d.iv, AsOff(d), v)
+              IN  [i \in DOMAIN v |-> IF pl.src[i] = 0 THEN v[i] ELSE v[pl.src[i]] + AsOff(d) * pl.dep[i]]
+AsClass(d, n) == IF d.k = "as" THEN AsPlan(d, n).cls ELSE <<0, 0, 0>>
+(* the docstring examples of impose_as (values in units of 1/S) *)
+AsDocMask == << <<0, 1>>, <<3, 1>>, <<4, 5>>, <<5, 6>>, <<5, 7>> >>
+AsDoc(off, xs, ys) == /\ AsDefined(AsDocMask, Len(xs))
+                      /\ AsT(AsDocMask, off * S, [i \in DOMAIN xs |-> xs[i] * S]) = [i \in DOMAIN ys |-> ys[i] * S]
+                      /\ AsTP(DAs(AsDocMask, IF off = 0 THEN NONE ELSE off * S), [i \in DOMAIN xs |-> xs[i] * S])
+                            = [i \in DOMAIN ys |-> ys[i] * S]
+AsDocExamples ==
+  /\ AsDoc(0,  <<9, 8, 7, 6, 5, 4, 3, 2, 1>>,      <<9, 9, 7, 9, 5, 5, 5, 5, 1>>)
+  /\ AsDoc(0,  <<0, 1, 0, 1>>,                     <<0, 0, 0, 0>>)
+  /\ AsDoc(0,  <<-1, -2, -3, -4, -5, -6, -7>>,     <<-1, -1, -3, -1, -5, -5, -5>>)
+  /\ AsDoc(10, <<9, 8, 7, 6, 5, 4, 3, 2, 1>>,      <<9, 19, 7, 9, 5, 15, 25, 25, 1>>)
+  /\ AsDoc(10, <<0, 1, 0, 1>>,                     <<0, 10, 0, 0>>)
+  /\ AsDoc(10, <<-1, -2, -3, -4, -5, -6>>,         <<-1, 9, -3, -1, -5, 5>>)
+  /\ AsDoc(10, <<-1, -2, -3, -4, -5, -6, -7>>,     <<-1, 9, -3, -1, -5, 5, 15>>)
+ASSUME AsDocExamples
+
+-----------------------------------------------------------------------------
+(* footprint: positions (of the OUTPUT) a decorator may touch, for an input of length n *)
 Footprint(d, n) ==
   CASE d.k \in {"bounds", "discrete", "integers", "rounded", "precision", "monotonic", "sorting", "at"}
                        -> Sel(d.ix, n)
-    [] d.k = "as"      -> {Pos(d.iv[j][2], n) : j \in InRangePairs(d.iv, n)}
+    [] d.k = "as"      -> \* every entry of a pair except the component sources (nothing is promised outside the premise)
+                          LET pl == AsPlan(d, n) IN {i \in 1..n : pl.src[i] # 0 /\ pl.src[i] # i}
     [] d.k = "sync"    -> {Pos(d.iv[j][1], n) : j \in InRangePairs(d.iv, n)}
     [] d.k = "partial" -> {Pos(d.iv[j][1], n) : j \in {m \in DOMAIN d.iv : InRange(d.iv[m][1], n)}}
     [] d.k = "masked"  -> {d.iv[j][1] + 1 : j \in DOMAIN d.iv}
@@ -192,10 +330,9 @@ Defined(d, y) ==
             IsNone(d.ix) \/ Len(d.ix) = 1 \/ (~HasOOR(d.ix, n) /\ NoAlias(d.ix, n))
        [] d.k = "at" -> \A j \in DOMAIN d.ix : d.ix[j] >= -n      \* a too-negative index raises
        [] d.k = "unique" -> Rng(v) \subseteq Rng(d.iv[1]) /\ n <= Cardinality(Rng(d.iv[1]))
-       [] d.k = "as" ->     \* star-shaped and alias-free: every tracker has one partner, no chains
-            /\ \A a, b \in InRangePairs(d.iv, n) : a # b => Pos(d.iv[a][2], n) # Pos(d.iv[b][2], n)
-            /\ {Pos(d.iv[j][1], n) : j \in InRangePairs(d.iv, n)} \cap {Pos(d.iv[j][2], n) : j \in InRangePairs(d.iv, n)} = {}
-       [] d.k = "sync" ->
+       [] d.k = "as" ->     \* the documented relation can hold for all pairs at once (chains, fan-in/out, trees are fine)
+            AsPlan(d, n).df
+       [] d.k = "sync" ->   \* distinct keys, and no chains: "operations within a single mask are unordered" (docstring)
             /\ \A a, b \in InRangePairs(d.iv, n) : a # b => Pos(d.iv[a][1], n) # Pos(d.iv[b][1], n)
             /\ {Pos(d.iv[j][1], n) : j \in InRangePairs(d.iv, n)} \cap {Pos(d.iv[j][2], n) : j \in InRangePairs(d.iv, n)} = {}
        [] d.k = "partial" ->
@@ -230,6 +367,12 @@ Masked(v, d) ==
          IF (p - 1) \in keys THEN val(p - 1)
          ELSE v[p - Cardinality({m \in keys : m + 1 < p})]]
 
+(* synchronized: the value entry i takes from its partner's value a; c = 0 plain {i: j}, else scaled by the   *)
+(* constant c ({i: (j, c)}, form 0), by the callable t -> c*t (form 1) or shifted by the callable t -> t + c/S *)
+SyncForm(d) == IF Len(d.p) = 0 THEN 0 ELSE d.p[1]
+SyncVal(d, j, a) == IF d.iv[j][3] = 0 THEN a
+                    ELSE IF SyncForm(d) = 2 THEN a + d.iv[j][3] ELSE d.iv[j][3] * a
+
 T(d, v) ==
   LET n == Len(v)
       P == Footprint(d, n)
@@ -241,11 +384,7 @@ T(d, v) ==
     [] d.k = "monotonic" -> Monotone(v, P, d.p[1])
     [] d.k = "sorting"   -> Sorted(v, P, d.p[1])
     [] d.k = "at"        -> [i \in DOMAIN v |-> IF i \in P THEN d.p[1] ELSE v[i]]
-    [] d.k = "as"        -> [i \in DOMAIN v |->
-                               IF i \in P
-                               THEN LET j == CHOOSE c \in InRangePairs(d.iv, n) : Pos(d.iv[c][2], n) = i
-                                    IN  v[Pos(d.iv[j][1], n)] + d.p[1]
-                               ELSE v[i]]
+    [] d.k = "as"        -> AsTP(d, v)
     [] d.k = "partial"   -> [i \in DOMAIN v |->
                                IF i \in P
                                THEN LET j == CHOOSE c \in DOMAIN d.iv : InRange(d.iv[c][1], n) /\ Pos(d.iv[c][1], n) = i
@@ -254,8 +393,7 @@ T(d, v) ==
     [] d.k = "sync"      -> [i \in DOMAIN v |->
                                IF i \in P
                                THEN LET j == CHOOSE c \in InRangePairs(d.iv, n) : Pos(d.iv[c][1], n) = i
-                                        f == IF d.iv[j][3] = 0 THEN 1 ELSE d.iv[j][3]
-                                    IN  f * v[Pos(d.iv[j][2], n)]
+                                    IN  SyncVal(d, j, v[Pos(d.iv[j][2], n)])
                                ELSE v[i]]
     [] d.k = "masked"    -> Masked(v, d)
     [] d.k = "clipped"   -> [i \in DOMAIN v |-> ClipTo(v[i], <<d.p[1], d.p[2]>>)]
@@ -366,10 +504,10 @@ Conf(d, y) ==
   ELSE CASE d.k = "unique"  -> Distinct(v) /\ Rng(v) \subseteq Rng(d.iv[1])
          [] d.k \in {"monotonic", "sorting"} ->
               \A a, b \in DOMAIN ps : a < b => IF d.p[1] = 1 THEN v[ps[a]] <= v[ps[b]] ELSE v[ps[a]] >= v[ps[b]]
-         [] d.k = "as"      -> \A j \in InRangePairs(d.iv, n) : v[Pos(d.iv[j][2], n)] = v[Pos(d.iv[j][1], n)] + d.p[1]
+         [] d.k = "as"      -> \A j \in InRangePairs(d.iv, n) : v[Pos(d.iv[j][2], n)] = v[Pos(d.iv[j][1], n)] + AsOff(d)
          [] d.k = "partial" -> \A j \in DOMAIN d.iv : InRange(d.iv[j][1], n) => v[Pos(d.iv[j][1], n)] = d.iv[j][2]
          [] d.k = "sync"    -> \A j \in InRangePairs(d.iv, n) :
-                                  v[Pos(d.iv[j][1], n)] = (IF d.iv[j][3] = 0 THEN 1 ELSE d.iv[j][3]) * v[Pos(d.iv[j][2], n)]
+                                  v[Pos(d.iv[j][1], n)] = SyncVal(d, j, v[Pos(d.iv[j][2], n)])
          [] d.k = "masked"  -> \A j \in DOMAIN d.iv : d.iv[j][1] + 1 \in DOMAIN v /\ v[d.iv[j][1] + 1] = d.iv[j][2]
 
 SameOutside(d, y, z) ==
@@ -382,8 +520,11 @@ SameOutside(d, y, z) ==
 AllSeq == SetToSeq(Decs)
 NParts == IF "NPARTS" \in DOMAIN IOEnv THEN atoi(IOEnv.NPARTS) ELSE 1
 Part   == IF "PART" \in DOMAIN IOEnv THEN atoi(IOEnv.PART) ELSE 0
-MineIdx == PosSeq({i \in DOMAIN AllSeq : i % NParts = Part})
-DecSeq == [j \in DOMAIN MineIdx |-> AllSeq[MineIdx[j]]]
+(* (LET: the catalogue is turned into a sequence once, not once per member; `\o << >>` makes the value an *)
+(* explicit tuple, which TLC computes once, instead of a function expression it re-evaluates at every use) *)
+DecSeq == LET A == AllSeq
+              M == PosSeq({i \in DOMAIN A : i % NParts = Part})
+          IN  [j \in DOMAIN M |-> A[M[j]]] \o << >>
 ND == Len(DecSeq)
 (* theorems are stated for the decorator applied to the identity *)
 Plain(d) == d.g = 0
@@ -482,7 +623,8 @@ Expect(d, y) ==
 
 ASSUME PrintT(<<"@@", ToJson([cat |-> DecSeq, S |-> S,
           foot |-> [i \in 1..ND |-> [n \in 1..(Max(Lens) + 1) |-> Footprint(DecSeq[i], n - 1)]],
-          oor  |-> [i \in 1..ND |-> [n \in 1..(Max(Lens) + 1) |-> HasOOR(DecSeq[i].ix, n - 1)]]])>>)
+          oor  |-> [i \in 1..ND |-> [n \in 1..(Max(Lens) + 1) |-> HasOOR(DecSeq[i].ix, n - 1)]],
+          ascls |-> [i \in 1..ND |-> [n \in 1..(Max(Lens) + 1) |-> AsClass(DecSeq[i], n - 1)]]])>>)
 
 Emit == (MaxHist = 0 /\ InDomain(x)) =>
           PrintT(<<"@@", ToJson([x |-> x.v, e |-> [i \in 1..ND |-> Expect(DecSeq[i], x)]])>>)
